@@ -308,6 +308,26 @@ def accepted_entries(files, roots, ids):
             out.add((r['target'], norm_rel(r['root'] + '/' + '/'.join(comps))))
     return out
 
+def any_usable_manifest(files, roots, ids):
+    """harness's own reading: does some root of the run have a usable manifest (schema 1, tool = target;
+    preferred name else legacy), whatever it lists"""
+    for r in roots:
+        pref = r['root'] + '/' + mf_name(r['target']); leg = r['root'] + '/' + LEGACY
+        b = files[pref] if pref in files else files.get(leg)
+        if b is None:
+            continue
+        m = classify_manifest(b, ids)
+        if m[0] == 'P' and m[2] == r['target'] and m[1] == 1:
+            return True
+    return False
+
+def snapshot_fallback(files, roots, ids, latest_managed):
+    """the record used when no root has a usable manifest: latest-snapshot entries under a current root of
+    their target; None when manifests decide"""
+    if any_usable_manifest(files, roots, ids):
+        return None
+    return [(t, p) for t, p in (latest_managed or []) if any(r['target'] == t and p.startswith(r['root'] + '/') for r in roots)]
+
 def oracle_lib(case, obs, ids):
     """C02/C04/C05-style predicates on one library-level apply (no adopt gate at this level)."""
     bad = []
@@ -667,10 +687,11 @@ def oracle_step(props, before, after, D, roots, flt, adopt, entry, plan, code, i
     before/after: relpath->bytes (relative to sb.home); D/roots with paths relative likewise."""
     bad = []
     recorded_all = accepted_entries(before, roots, ids)
-    if not recorded_all and latest_managed is not None:
-        # the latest snapshot only counts as a record "for that root and target": entries under a
-        # current root of their target (the agentpack home, hence its snapshots, is shared by all projects)
-        recorded_all = {(t, p) for t, p in latest_managed if any(r['target'] == t and p.startswith(r['root'] + '/') for r in roots)}
+    fb = snapshot_fallback(before, roots, ids, latest_managed)
+    if fb is not None:
+        # "when no manifest is usable anywhere, its latest deployment snapshot": only then, and only entries
+        # under a current root of their target (the agentpack home, hence its snapshots, is shared by all projects)
+        recorded_all = set(fb)
     recorded = {(t, p) for t, p in recorded_all if flt is None or t == flt}
     dkeys = {(d['target'], d['path']): d for d in D}
     mpaths = {r['root'] + '/' + mf_name(r['target']) for r in roots}
